@@ -59,6 +59,14 @@ ERROR_EXIT_HANGS = ('error-exit-hangs', {'files': [('f0.c', 'abcdef')], 'rules':
                                          'passes': [{'key': 1, 'ops': [('del', 0), ('del', 1), ('same',), ('del', 2)], 'aos': 0}], 'cfg': {'N': 4, 'die': True}})
 
 
+# candidates whose tests start at staggered times around the moment an earlier candidate's (slow) test succeeds: some test has
+# only just been started when the round is decided and everything still running is abandoned
+LATE_STARTERS = ('late-starters', {'files': [('f0.c', 'abcdefghijklmn')], 'timeout': 6, 'slow_s': 0.6,
+                                   'rules': [([('nothas', 0, 'a')], 'slow0'), ([], 'timeout')],
+                                   'passes': [{'key': 1, 'ops': [('delch', 'a')] + [('wait', round(0.45 + 0.06 * k, 2), k + 1) for k in range(11)], 'aos': 1}],
+                                   'cfg': {'N': 12}})
+
+
 def real_case(ctx, sc, tag, fork):
     o = realrun.run_real(sc, ctx.tmp, timeout=sc.get('timeout', 1), fork_on_hang=fork)
     ctx.evaluations += 1
@@ -199,6 +207,12 @@ def explore(ctx):
     o = real_case(ctx, ERROR_EXIT_HANGS[1], ERROR_EXIT_HANGS[0], False)
     if not any(p['code'] for p in o.passes):
         ctx.broke('harness', 'error-exit-hangs scenario', 'the run did not end by an error')
+    o = real_case(ctx, LATE_STARTERS[1], LATE_STARTERS[0], False)
+    ctx.sample({'real_pool': 'late-starters', 'tests_started': len(getattr(o, 'started_pids', [])), 'alive_after': o.alive})
+    # ... and while the hanging tests keep writing files into their directories
+    o = real_case(ctx, dict(ERROR_EXIT_HANGS[1], hang_writes=True), 'error-exit-hangs-writing', False)
+    if not any(p['code'] for p in o.passes):
+        ctx.broke('harness', 'error-exit-hangs-writing scenario', 'the run did not end by an error')
     reals = REAL_SCENARIOS if not ctx.quick() else REAL_SCENARIOS[1:3]      # 'mixed' and 'all-timeout' (a round without a winner)
     for tag, sc in reals:
         for fork in ((False, True, 'setsid', 'term-proof') if tag != 'two-files' else (False,)):
